@@ -64,9 +64,32 @@ const c04StmtEcho = `tie.echo = function(opt_data, opt_sb, opt_ijData) {
 };
 `
 
+// {msg desc=".."}..{/msg} without plural: raw text, print and call placeholders (now and then a let, which a message cannot
+// hold: outside the subset); the JavaScript is the children's statements one after the other
+func (g *cexprGen) msg() string {
+	var items []string
+	for i := 1 + g.r.Intn(3); i > 0; i-- {
+		switch g.r.Intn(3) {
+		case 0:
+			items = append(items, "(sraw "+sx(g.r.Pick([]string{"Hello ", "b c", "<b>", "!", "it's"}))+")")
+		case 1:
+			items = append(items, "(sprint "+g.expr(g.r.Intn(3), 2)+")")
+		default:
+			items = append(items, g.call(0))
+		}
+	}
+	if g.r.Chance(5) {
+		items = append(items, "(slet "+sx("y")+" (cint 1))")
+	}
+	return "(smsg (blk " + strings.Join(items, " ") + "))"
+}
+
 func (g *cexprGen) stmt(d int) string {
 	if g.r.Chance(8) {
 		return g.call(d)
+	}
+	if g.r.Chance(4) {
+		return g.msg()
 	}
 	k := g.r.Intn(12)
 	if d <= 0 && k >= 6 {
